@@ -1,34 +1,22 @@
 import VaxisModel.Lemmas.ConcInvStep
 
 /-! `chQuit` is closed at most once — in every reachable state, under every label (any number of
-`Close` callers, `Close` on the input goroutine's signal arm included). This is F33 repaired: the
+`Close` callers, `Close` on an input goroutine's signal arm or panic path included). This is F33 repaired: the
 test-and-set of `vx.closed` under `closeMu` lets exactly one caller through. -/
 namespace VaxisModel.Lemmas.ConcFlag
 open VaxisModel.Model.Conc VaxisModel.Lemmas.ConcInv
 
-/-- the input goroutine is inside `Close`, past the test-and-set -/
-def iActive : IPc → Nat
-  | .closing .checkFlag => 0
-  | .closing .returned => 0
-  | .closing _ => 1
-  | _ => 0
-
 structure FlagInv (s : SSys) : Prop where
-  flag : sumBy fActive s.callers + iActive s.ipc + s.quitCloses = b2n s.closedFlag
+  flag : sumBy fActive s.callers + s.quitCloses = b2n s.closedFlag
   wellTyped : sumBy fBad s.callers = 0
 
-theorem flagInv_init (s : SSys) (h1 : s.callers = []) (h2 : s.closedFlag = false) (h3 : s.quitCloses = 0)
-    (h4 : ∀ c, s.ipc ≠ .closing c) : FlagInv s := by
+theorem flagInv_init (s : SSys) (h1 : s.callers = []) (h2 : s.closedFlag = false) (h3 : s.quitCloses = 0) : FlagInv s := by
   refine ⟨?_, by simp [h1, sumBy]⟩
-  have : iActive s.ipc = 0 := by
-    cases hi : s.ipc with
-    | closing c => exact absurd hi (h4 c)
-    | _ => rfl
-  simp [h1, h2, h3, sumBy, this]
+  simp [h1, h2, h3, sumBy]
 
 /-- What one step of `Close`/`Suspend` does to the flag and to the count of closes. -/
 theorem closeStep_flag (s s1 : SSys) (k : Bool) (c c' : CPc) (h : closeStep s k c = some (s1, c')) :
-    s1.callers = s.callers ∧ s1.ipc = s.ipc ∧
+    s1.callers = s.callers ∧
     ((c = .checkFlag ∧ s.closedFlag = false ∧ s1.closedFlag = true ∧ c' = .postQuit ∧ s1.quitCloses = s.quitCloses) ∨
      (c = .checkFlag ∧ s.closedFlag = true ∧ s1.closedFlag = true ∧ c' = .returned ∧ s1.quitCloses = s.quitCloses) ∨
      (c = .closeQuit ∧ c' = .returned ∧ s1.closedFlag = s.closedFlag ∧ s1.quitCloses = s.quitCloses + 1) ∨
@@ -51,7 +39,17 @@ theorem closeStep_flag (s s1 : SSys) (k : Bool) (c c' : CPc) (h : closeStep s k 
   · simp at h
 
 
+theorem flagInv_iact (s s' : SSys) (v v' : IView) (a : IAct) (h : FlagInv s) (hi : iact s v a = some (s', v')) : FlagInv s' := by
+  obtain ⟨hf, hw⟩ := h
+  rcases iact_shape s s' v v' a hi with rfl | ⟨n, rfl⟩ | rfl | ⟨_, rfl⟩ | ⟨_, rfl⟩
+  · exact ⟨hf, hw⟩
+  · exact ⟨hf, hw⟩
+  · exact ⟨hf, hw⟩
+  · exact ⟨by simpa [sumBy_append, sumBy, fActive, closeCaller] using hf, by simpa [sumBy_append, sumBy, fBad, closeCaller] using hw⟩
+  · exact ⟨by simpa [sumBy_append, sumBy, fActive, closeCaller] using hf, by simpa [sumBy_append, sumBy, fBad, closeCaller] using hw⟩
+
 theorem flagInv_step (s s' : SSys) (l : SLabel) (h : FlagInv s) (hn : snext s l = some s') : FlagInv s' := by
+  have hh := h
   obtain ⟨hf, hw⟩ := h
   cases l with
   | termInput u => simp only [snext, Option.some.injEq] at hn; subst hn; exact ⟨hf, hw⟩
@@ -59,51 +57,27 @@ theorem flagInv_step (s s' : SSys) (l : SLabel) (h : FlagInv s) (hn : snext s l 
   | parser =>
     simp only [snext] at hn
     split at hn <;> (try split at hn) <;> simp at hn <;> subst hn <;> exact ⟨hf, hw⟩
-  | inputRecv =>
-    simp only [snext] at hn
-    split at hn <;> simp at hn <;> subst hn <;> rename_i hi _ <;> refine ⟨?_, hw⟩ <;> simp only [hi, iActive] at hf ⊢ <;> exact hf
-  | inputKill =>
+  | input a =>
     simp only [snext] at hn
     split at hn
-    · rename_i hi
-      split at hn <;> simp at hn
-      subst hn; refine ⟨?_, hw⟩; simp only [hi, iActive] at hf ⊢; exact hf
+    · rename_i s1 v hi
+      simp at hn; subst hn
+      obtain ⟨h1, h2⟩ := flagInv_iact s s1 _ v a hh hi
+      exact ⟨h1, h2⟩
     · simp at hn
-  | inputStep =>
+  | old j a =>
     simp only [snext] at hn
     split at hn
-    · rename_i hi; simp at hn; subst hn; refine ⟨?_, hw⟩; simp only [hi, iActive] at hf ⊢; exact hf
-    · rename_i k hi
-      split at hn <;> simp at hn
-      subst hn; refine ⟨?_, hw⟩; simp only [hi, iActive] at hf ⊢; exact hf
-    · rename_i c hi
-      split at hn
-      · rename_i s1 hc
-        obtain ⟨e1, e2, e3⟩ := closeStep_flag s s1 true c .returned hc
+    · simp at hn
+    · split at hn
+      · rename_i s1 v hi
         simp at hn; subst hn
-        refine ⟨?_, by simpa [e1] using hw⟩
-        have hb := b2n_le s.closedFlag
-        rcases e3 with ⟨rfl, h1, h2, h3, h4⟩ | ⟨rfl, h1, h2, h3, h4⟩ | ⟨rfl, h3, h1, h4⟩ | ⟨_, _, _, _, _, _, h5, _⟩
-        · simp at h3
-        · simp only [e1, h4, h2, hi, h1, iActive, b2n_true] at hf ⊢; omega
-        · simp only [e1, h4, h1, hi, iActive] at hf ⊢; omega
-        · simp at h5
-      · rename_i s1 c' hne hc
-        obtain ⟨e1, e2, e3⟩ := closeStep_flag s s1 true c c' hc
-        simp at hn; subst hn
-        refine ⟨?_, by simpa [e1] using hw⟩
-        rcases e3 with ⟨rfl, h1, h2, rfl, h4⟩ | ⟨rfl, h1, h2, rfl, h4⟩ | ⟨rfl, rfl, h1, h4⟩ | ⟨n1, n2, n3, n4, h1, h4, h5, h6⟩
-        · simp only [e1, h4, h2, hi, h1, iActive, b2n_true, b2n_false] at hf ⊢; omega
-        · exact (hne rfl).elim
-        · exact (hne rfl).elim
-        · have a1 : iActive (.closing c) = 1 := by cases c <;> simp_all [iActive]
-          have a2 : iActive (.closing c') = 1 := by
-            cases c' <;> simp_all [iActive]
-          simp only [e1, h4, h1, hi, a1, a2] at hf ⊢; exact hf
+        obtain ⟨h1, h2⟩ := flagInv_iact s s1 _ v a hh hi
+        exact ⟨h1, h2⟩
       · simp at hn
-    · simp at hn
   | consume => simp only [snext] at hn; split at hn <;> simp at hn; subst hn; exact ⟨hf, hw⟩
   | signal => simp only [snext] at hn; split at hn <;> simp at hn; subst hn; exact ⟨hf, hw⟩
+  | winch => simp only [snext] at hn; split at hn <;> simp at hn; subst hn; exact ⟨hf, hw⟩
   | callClose =>
     simp only [snext, Option.some.injEq] at hn; subst hn
     exact ⟨by simpa [sumBy_append, sumBy, fActive] using hf, by simpa [sumBy_append, sumBy, fBad] using hw⟩
@@ -113,8 +87,14 @@ theorem flagInv_step (s s' : SSys) (l : SLabel) (h : FlagInv s) (hn : snext s l 
   | resume =>
     simp only [snext] at hn
     split at hn <;> simp at hn
-    rename_i hc; simp at hc
-    subst hn; refine ⟨?_, hw⟩; simp only [hc.2, iActive] at hf ⊢; exact hf
+    subst hn; exact ⟨hf, hw⟩
+  | drain j =>
+    simp only [snext] at hn
+    split at hn
+    · simp at hn
+    · split at hn
+      · simp at hn; subst hn; exact ⟨hf, hw⟩
+      · simp at hn
   | caller j =>
     simp only [snext] at hn
     split at hn
@@ -122,7 +102,7 @@ theorem flagInv_step (s s' : SSys) (l : SLabel) (h : FlagInv s) (hn : snext s l 
     · rename_i c hj
       split at hn
       · rename_i s1 c' hc
-        obtain ⟨e1, e2, e3⟩ := closeStep_flag s s1 c.inClose c.pc c' hc
+        obtain ⟨e1, e3⟩ := closeStep_flag s s1 c.inClose c.pc c' hc
         simp at hn; subst hn
         have hm : c ∈ s.callers := List.mem_of_getElem? hj
         have m1 := sumBy_pos_of_mem fActive s.callers c hm
@@ -132,7 +112,7 @@ theorem flagInv_step (s s' : SSys) (l : SLabel) (h : FlagInv s) (hn : snext s l 
         have s2' := sumBy_set' fBad s.callers j c { c with pc := c' } hj
         obtain ⟨pc, k⟩ := c
         simp only at e3 hc s1' s2' m1 m9
-        simp only [e1, e2]
+        simp only [e1]
         rcases e3 with ⟨rfl, h1, h2, rfl, h4⟩ | ⟨rfl, h1, h2, rfl, h4⟩ | ⟨rfl, rfl, h1, h4⟩ | ⟨n1, n2, n3, n4, h1, h4, h5, h6⟩
         · cases k <;> simp [fActive, fBad] at m1 m9 s1' s2' <;> refine ⟨?_, ?_⟩ <;> simp only [s1', s2', h4, h2, h1, b2n_true, b2n_false] at hf ⊢ <;> omega
         · cases k <;> simp [fActive, fBad] at m1 m9 s1' s2' <;> refine ⟨?_, ?_⟩ <;> simp only [s1', s2', h4, h2, h1, b2n_true, b2n_false] at hf ⊢ <;> omega
